@@ -209,6 +209,8 @@ where
     fn drop(&mut self) {
         if !self.committed {
             // Revert: Remove our intent from pending_intents
+            #[cfg(feature = "verif")]
+            crate::verif::point("I:intent_drop");
             let mut intents = self.index.pending_intents.lock();
 
             if let Some(current_hash) = intents.get(&self.key)
@@ -269,7 +271,11 @@ where
     pub fn checkpoint(&self, reason: CheckpointReason) -> Result<(), IndexError> {
         tracing::info!(?reason, "Starting checkpoint operation.");
 
+        #[cfg(feature = "verif")]
+        crate::verif::point("Sw:ckpt");
         let mut snapshot = self.state.write();
+        #[cfg(feature = "verif")]
+        crate::verif::point("W:ckpt");
         let mut wal_guard = self.wal.lock();
 
         self.checkpoint_inner(reason, &mut wal_guard, &mut *snapshot)
@@ -280,6 +286,8 @@ where
         key: K,
         meta: IntentMeta,
     ) -> Result<IntentGuard<'_, K>, IndexError> {
+        #[cfg(feature = "verif")]
+        crate::verif::point("I:register");
         let mut intents = self.pending_intents.lock();
 
         // Check if there was a previous intent for this key
@@ -306,10 +314,16 @@ where
         delete_fn: &crate::types::DeleteBlobCallFn,
     ) -> Result<(), IndexError> {
         let logical_op = WalOp::Put { key: key.clone(), hash, size };
+        #[cfg(feature = "verif")]
+        crate::verif::point("I:put");
         let mut intents = self.pending_intents.lock();
 
         let (mut unreferenced_from_op, rolled_over) = {
+            #[cfg(feature = "verif")]
+            crate::verif::point("Sw:apply");
             let mut state = self.state.write();
+            #[cfg(feature = "verif")]
+            crate::verif::point("W:apply");
             let mut wal = self.wal.lock();
             let (hashes, _append_info, rolled) =
                 Self::apply_wal_op_unsafe(&mut state, &mut wal, &logical_op)?;
@@ -328,9 +342,15 @@ where
         }
 
         drop(intents);
+        #[cfg(feature = "verif")]
+        crate::verif::point("unlocked");
 
         if rolled_over {
+            #[cfg(feature = "verif")]
+            crate::verif::point("Sw:roll");
             let mut state = self.state.write();
+            #[cfg(feature = "verif")]
+            crate::verif::point("W:roll");
             let mut wal = self.wal.lock();
             self.checkpoint_inner(CheckpointReason::SegmentRollover, &mut wal, &mut state)?;
         }
@@ -344,10 +364,16 @@ where
         delete_fn: &crate::types::DeleteBlobCallFn,
     ) -> Result<(), IndexError> {
         let logical_op = WalOp::Remove { keys };
+        #[cfg(feature = "verif")]
+        crate::verif::point("I:rm");
         let intents = self.pending_intents.lock();
 
         let (mut unreferenced_from_op, rolled_over) = {
+            #[cfg(feature = "verif")]
+            crate::verif::point("Sw:apply");
             let mut state = self.state.write();
+            #[cfg(feature = "verif")]
+            crate::verif::point("W:apply");
             let mut wal = self.wal.lock();
             let (hashes, _append_info, rolled) =
                 Self::apply_wal_op_unsafe(&mut state, &mut wal, &logical_op)?;
@@ -364,9 +390,15 @@ where
         }
 
         drop(intents);
+        #[cfg(feature = "verif")]
+        crate::verif::point("unlocked");
 
         if rolled_over {
+            #[cfg(feature = "verif")]
+            crate::verif::point("Sw:roll");
             let mut state = self.state.write();
+            #[cfg(feature = "verif")]
+            crate::verif::point("W:roll");
             let mut wal = self.wal.lock();
             self.checkpoint_inner(CheckpointReason::SegmentRollover, &mut wal, &mut state)?;
         }
@@ -440,6 +472,8 @@ where
 
 impl<K> Index<K> {
     pub fn read_state(&self) -> IndexReadGuard<'_, K> {
+        #[cfg(feature = "verif")]
+        crate::verif::point("Sr:read");
         IndexReadGuard { inner: self.state.read() }
     }
 }
